@@ -6,7 +6,10 @@ ComponentSpecification._compute_memoization_info / memoization_hash / memoizatio
 E2 (CrossHair): the canonicalisation ComponentSpecification._memoization_info_to_hash with symbolic strings.
 """
 import copy
+import os
 import re
+import shutil
+import tempfile
 import types
 
 from experiment.model.graph import WorkflowGraph
@@ -102,12 +105,68 @@ def body(ctx):
     return (backend, aspect, uses_producer)
 
 
+class _Storage(object):
+    def __init__(self, root):
+        self.root = root
+        self.instancePath = root
+
+    def resolvePath(self, p):
+        return os.path.join(self.root, p)
+
+
+def body_files(ctx):
+    """Direct file references: content sensitivity, location insensitivity, no hash while the input is missing."""
+    present1 = ctx.flag('file_present_in_first')
+    present2 = ctx.flag('file_present_in_second')
+    same_content = ctx.flag('same_content')
+    method = ctx.choice('method', ['copy', 'ref', 'link'])
+    uses_in_args = ctx.flag('reference_used_in_arguments')
+    ctx.assume(method == 'ref' or not uses_in_args or True)
+    args = 'run' + (' data/in.txt:%s' % method if (uses_in_args and method == 'ref') else '')
+    doc = {'components': [{'stage': 0, 'name': 'C', 'command': {'executable': 'bin/run', 'arguments': args},
+                           'references': ['data/in.txt:%s' % method]}]}
+    roots = [tempfile.mkdtemp(prefix='verif-c16-a-'), tempfile.mkdtemp(prefix='verif-c16-b-')]
+    try:
+        hs = []
+        for root, present, content in ((roots[0], present1, 'alpha'), (roots[1], present2, 'alpha' if same_content else 'beta')):
+            os.makedirs(os.path.join(root, 'data'))
+            if present:
+                with open(os.path.join(root, 'data', 'in.txt'), 'w') as f:
+                    f.write(content)
+            g = WorkflowGraph.graphFromFlowIR(copy.deepcopy(doc), {}, primitive=False)
+            g.rootStorage = _Storage(root)
+            for n, d in g.graph.nodes(data=True):
+                d['componentInstance'] = types.SimpleNamespace(directory=root)
+            spec = g.graph.nodes['stage0.C']['componentSpecification']
+            hs.append((spec.memoization_hash, spec.memoization_hash_fuzzy))
+    finally:
+        for r in roots:
+            shutil.rmtree(r, ignore_errors=True)
+    detail = {'present': (present1, present2), 'same_content': same_content, 'method': method, 'hashes': hs}
+    for present, h in ((present1, hs[0]), (present2, hs[1])):
+        if not present:
+            ctx.witness('missing_input_checked')
+            ctx.check(h[0] is None and h[1] is None, 'no hash is produced while a referenced input is missing', detail)
+        else:
+            ctx.check(h[0] is not None and h[1] is not None, 'a component whose inputs exist has a hash', detail)
+    if present1 and present2:
+        ctx.witness('content_pair_checked')
+        if same_content:
+            ctx.check(hs[0] == hs[1], 'equal file contents in different instance locations give equal hashes', detail)
+        else:
+            ctx.check(hs[0][0] != hs[1][0], 'different file contents give different strong hashes', detail)
+            ctx.check(hs[0][1] != hs[1][1], 'different contents of a file not produced by a component change the fuzzy hash', detail)
+    return (present1, present2, same_content, method)
+
+
 def factory(param):
+    if param.get('name') == 'files':
+        return body_files
     return body
 
 
 def signature(param, assignment, message, detail):
-    return 'pairs|%s|aspect=%s|backend=%s' % (message, (detail or {}).get('aspect'), (detail or {}).get('backend'))
+    return '%s|%s|aspect=%s|backend=%s' % (param.get('name'), message, (detail or {}).get('aspect'), (detail or {}).get('backend'))
 
 
 def xh_key(name, call):
@@ -121,19 +180,21 @@ def main(tier, seed, only=None):
                      'memoization_hash_fuzzy', 'WorkflowGraph.graphFromFlowIR']
     rep.bounds = {'E1': 'pairs differing in exactly one of %d aspects x backend in {local, simulator, kubernetes, lsf, docker} x '
                         'consumer with/without a producer reference' % len(ASPECTS),
+                  'files': 'one direct file reference (copy/ref/link): present or missing in each of two instance locations, equal or different contents',
                   'E2': 'two symbolic strings of <= 2-3 characters in arguments / executable / files / image'}
-    rep.outside = ['file content hashing (md5_of_file, C code)', 'missing-input behaviour beyond the stubbed componentInstance directories',
+    rep.outside = ['symbolic file contents (md5_of_file is C code; two concrete contents are used)',
                    'custom JavaScript embedding functions', 'CDB lookups (Controller.can_memoize)']
     rep.assumptions = ['hashlib.md5 replaced by a recorder in the E2 layer (md5 assumed injective on the compared inputs)',
                        'nodes get a stub componentInstance whose directory exists (/tmp, /usr)']
     rep.explanation = ('E1: bounded symbolic execution (symx/z3) over the choice of the differing aspect; E2: CrossHair (z3) on the '
                        'canonicalisation with symbolic characters; counterexamples replayed natively')
-    rep.required_witnesses = ['relevant_aspect_checked', 'irrelevant_aspect_checked']
+    rep.required_witnesses = ['relevant_aspect_checked', 'irrelevant_aspect_checked', 'missing_input_checked', 'content_pair_checked']
     if not only or 'xh' in only:
         import harness.xh.c16_contracts as C
         run_e2(rep, 'harness.xh.c16_contracts', timeout, sweep=C.sweep, key=xh_key)
     if not only or 'pairs' in only:
-        s = explore_parallel('aspect-pairs', factory, [{'name': 'pairs'}], signature=signature, seed=seed, chunk=8, validate=False)
+        s = explore_parallel('aspect-pairs', factory, [{'name': 'pairs'}, {'name': 'files'}], signature=signature, seed=seed, chunk=8,
+                             validate=False)
         rep.add(s)
     else:
         rep.required_witnesses = []
